@@ -7,8 +7,10 @@ package align
 // The package's error values are created once at initialisation and never reassigned.
 //@ global ErrMatrixNotSquare != nil && ErrMismatchedTypes != nil && ErrMismatchedAlphabets != nil && ErrNoAlphabet != nil && ErrNotGappedAlphabet != nil && ErrTypeNotHandled != nil
 
-// A reported pair is an ungapped block of equal length in both sequences, a gap in exactly one of them, or empty.
-//@ spec wfPair(p feat.Pair) bool = typeis(p, *featPair) && p.(*featPair).a.start <= p.(*featPair).a.end && p.(*featPair).b.start <= p.(*featPair).b.end
+// A reported pair lies within both sequences and is an ungapped block of equal length in both, a gap in exactly
+// one of them, or empty.
+//@ spec wfPair(p feat.Pair, n int, m int) bool = typeis(p, *featPair) && 0 <= p.(*featPair).a.start && p.(*featPair).a.start <= p.(*featPair).a.end && p.(*featPair).a.end <= n
+//@       && 0 <= p.(*featPair).b.start && p.(*featPair).b.start <= p.(*featPair).b.end && p.(*featPair).b.end <= m
 //@       && (p.(*featPair).a.end - p.(*featPair).a.start == p.(*featPair).b.end - p.(*featPair).b.start || p.(*featPair).a.start == p.(*featPair).a.end || p.(*featPair).b.start == p.(*featPair).b.end)
 
 // ---- helpers (C08) ----
@@ -99,7 +101,7 @@ package align
 //@   property C09
 //@   maypanic
 //@   requires alpha != nil && allocated(idxRef(alpha))
-//@   ensures [pairs] result1 == nil ==> forall k int :: 0 <= k && k < len(result0) ==> wfPair(result0[k])
+//@   ensures [pairs] result1 == nil ==> forall k int :: 0 <= k && k < len(result0) ==> wfPair(result0[k], len(rSeq), len(qSeq))
 //@   ensures [illegal-reference] (exists k int :: 0 <= k && k < len(rSeq) && lidx(alpha, rSeq[k]) < 0) ==> result1 != nil
 //@   ensures [illegal-query]     (exists k int :: 0 <= k && k < len(qSeq) && lidx(alpha, qSeq[k]) < 0) ==> result1 != nil
 //@   ensures [undersized]        len(a) < alphaLen(alpha) ==> result1 != nil
@@ -112,20 +114,20 @@ package align
 //@   loop 6 invariant 1 <= i && i <= r && ref(index) == idxRef(alpha) && let == len(a) && let >= alphaLen(alpha) && len(la) == let * let && index != nil && (forall b int :: 0 <= b && b < 256 ==> index[b] == lidx(alpha, b)) && (forall k int :: 0 <= k && k < len(a) ==> len(a[k]) == let) && (forall k int :: 0 <= k && k < len(rSeq) ==> lidx(alpha, rSeq[k]) >= 0) && (forall k int :: 0 <= k && k < len(qSeq) ==> lidx(alpha, qSeq[k]) >= 0) && r == len(rSeq) + 1 && c == len(qSeq) + 1 && len(table) == r * c && fresh(table)
 //@   loop 7 invariant 1 <= i && i < r && 1 <= j && j <= c && ref(index) == idxRef(alpha) && let == len(a) && let >= alphaLen(alpha) && len(la) == let * let && index != nil && (forall b int :: 0 <= b && b < 256 ==> index[b] == lidx(alpha, b)) && (forall k int :: 0 <= k && k < len(a) ==> len(a[k]) == let) && (forall k int :: 0 <= k && k < len(rSeq) ==> lidx(alpha, rSeq[k]) >= 0) && (forall k int :: 0 <= k && k < len(qSeq) ==> lidx(alpha, qSeq[k]) >= 0) && r == len(rSeq) + 1 && c == len(qSeq) + 1 && len(table) == r * c && fresh(table)
 //@   loop 8 invariant 0 <= i && i < r && 0 <= j && j < c && ref(index) == idxRef(alpha) && let == len(a) && let >= alphaLen(alpha) && len(la) == let * let && index != nil && (forall b int :: 0 <= b && b < 256 ==> index[b] == lidx(alpha, b)) && (forall k int :: 0 <= k && k < len(a) ==> len(a[k]) == let) && (forall k int :: 0 <= k && k < len(rSeq) ==> lidx(alpha, rSeq[k]) >= 0) && (forall k int :: 0 <= k && k < len(qSeq) ==> lidx(alpha, qSeq[k]) >= 0) && r == len(rSeq) + 1 && c == len(qSeq) + 1 && len(table) == r * c && fresh(table)
-//@   loop 8 invariant [shape] i <= maxI && j <= maxJ && (last == 0 ==> maxI - i == maxJ - j) && (last == 1 ==> maxJ == j) && (last == 2 ==> maxI == i) && 0 <= last && last <= 2 && (i == r - 1 && j == c - 1 ==> maxI == i && maxJ == j) && maxI < r && maxJ < c
+//@   loop 8 invariant [shape] 0 <= i && 0 <= j && i <= maxI && j <= maxJ && (last == 0 ==> maxI - i == maxJ - j) && (last == 1 ==> maxJ == j) && (last == 2 ==> maxI == i) && 0 <= last && last <= 2 && (i == r - 1 && j == c - 1 ==> maxI == i && maxJ == j) && maxI < r && maxJ < c
 //@   loop 8 invariant [aln] (arr(aln) == 0 && cap(aln) == 0) || (fresh(aln) && allocated(aln))
-//@   loop 8 invariant [pairs] forall k int :: 0 <= k && k < len(aln) ==> wfPair(aln[k])
+//@   loop 8 invariant [pairs] forall k int :: 0 <= k && k < len(aln) ==> wfPair(aln[k], len(rSeq), len(qSeq))
 //@   loop 8 writes fresh
 //@   loop 9 invariant 0 <= i && j == len(aln) - 1 - i && ref(index) == idxRef(alpha) && let == len(a) && let >= alphaLen(alpha) && len(la) == let * let && index != nil && (forall b int :: 0 <= b && b < 256 ==> index[b] == lidx(alpha, b)) && (forall k int :: 0 <= k && k < len(a) ==> len(a[k]) == let) && (forall k int :: 0 <= k && k < len(rSeq) ==> lidx(alpha, rSeq[k]) >= 0) && (forall k int :: 0 <= k && k < len(qSeq) ==> lidx(alpha, qSeq[k]) >= 0)
 //@   loop 9 invariant [aln] (arr(aln) == 0 && cap(aln) == 0) || (fresh(aln) && allocated(aln))
-//@   loop 9 invariant [pairs] forall k int :: 0 <= k && k < len(aln) ==> wfPair(aln[k])
+//@   loop 9 invariant [pairs] forall k int :: 0 <= k && k < len(aln) ==> wfPair(aln[k], len(rSeq), len(qSeq))
 //@   loop 9 writes fresh
 
 //@ func (NW).alignQLetters
 //@   property C09
 //@   maypanic
 //@   requires alpha != nil && allocated(idxRef(alpha))
-//@   ensures [pairs] result1 == nil ==> forall k int :: 0 <= k && k < len(result0) ==> wfPair(result0[k])
+//@   ensures [pairs] result1 == nil ==> forall k int :: 0 <= k && k < len(result0) ==> wfPair(result0[k], len(rSeq), len(qSeq))
 //@   ensures [illegal-reference] (exists k int :: 0 <= k && k < len(rSeq) && lidx(alpha, rSeq[k].L) < 0) ==> result1 != nil
 //@   ensures [illegal-query]     (exists k int :: 0 <= k && k < len(qSeq) && lidx(alpha, qSeq[k].L) < 0) ==> result1 != nil
 //@   ensures [undersized]        len(a) < alphaLen(alpha) ==> result1 != nil
@@ -138,13 +140,13 @@ package align
 //@   loop 6 invariant 1 <= i && i <= r && ref(index) == idxRef(alpha) && let == len(a) && let >= alphaLen(alpha) && len(la) == let * let && index != nil && (forall b int :: 0 <= b && b < 256 ==> index[b] == lidx(alpha, b)) && (forall k int :: 0 <= k && k < len(a) ==> len(a[k]) == let) && (forall k int :: 0 <= k && k < len(rSeq) ==> lidx(alpha, rSeq[k].L) >= 0) && (forall k int :: 0 <= k && k < len(qSeq) ==> lidx(alpha, qSeq[k].L) >= 0) && r == len(rSeq) + 1 && c == len(qSeq) + 1 && len(table) == r * c && fresh(table)
 //@   loop 7 invariant 1 <= i && i < r && 1 <= j && j <= c && ref(index) == idxRef(alpha) && let == len(a) && let >= alphaLen(alpha) && len(la) == let * let && index != nil && (forall b int :: 0 <= b && b < 256 ==> index[b] == lidx(alpha, b)) && (forall k int :: 0 <= k && k < len(a) ==> len(a[k]) == let) && (forall k int :: 0 <= k && k < len(rSeq) ==> lidx(alpha, rSeq[k].L) >= 0) && (forall k int :: 0 <= k && k < len(qSeq) ==> lidx(alpha, qSeq[k].L) >= 0) && r == len(rSeq) + 1 && c == len(qSeq) + 1 && len(table) == r * c && fresh(table)
 //@   loop 8 invariant 0 <= i && i < r && 0 <= j && j < c && ref(index) == idxRef(alpha) && let == len(a) && let >= alphaLen(alpha) && len(la) == let * let && index != nil && (forall b int :: 0 <= b && b < 256 ==> index[b] == lidx(alpha, b)) && (forall k int :: 0 <= k && k < len(a) ==> len(a[k]) == let) && (forall k int :: 0 <= k && k < len(rSeq) ==> lidx(alpha, rSeq[k].L) >= 0) && (forall k int :: 0 <= k && k < len(qSeq) ==> lidx(alpha, qSeq[k].L) >= 0) && r == len(rSeq) + 1 && c == len(qSeq) + 1 && len(table) == r * c && fresh(table)
-//@   loop 8 invariant [shape] i <= maxI && j <= maxJ && (last == 0 ==> maxI - i == maxJ - j) && (last == 1 ==> maxJ == j) && (last == 2 ==> maxI == i) && 0 <= last && last <= 2 && (i == r - 1 && j == c - 1 ==> maxI == i && maxJ == j) && maxI < r && maxJ < c
+//@   loop 8 invariant [shape] 0 <= i && 0 <= j && i <= maxI && j <= maxJ && (last == 0 ==> maxI - i == maxJ - j) && (last == 1 ==> maxJ == j) && (last == 2 ==> maxI == i) && 0 <= last && last <= 2 && (i == r - 1 && j == c - 1 ==> maxI == i && maxJ == j) && maxI < r && maxJ < c
 //@   loop 8 invariant [aln] (arr(aln) == 0 && cap(aln) == 0) || (fresh(aln) && allocated(aln))
-//@   loop 8 invariant [pairs] forall k int :: 0 <= k && k < len(aln) ==> wfPair(aln[k])
+//@   loop 8 invariant [pairs] forall k int :: 0 <= k && k < len(aln) ==> wfPair(aln[k], len(rSeq), len(qSeq))
 //@   loop 8 writes fresh
 //@   loop 9 invariant 0 <= i && j == len(aln) - 1 - i && ref(index) == idxRef(alpha) && let == len(a) && let >= alphaLen(alpha) && len(la) == let * let && index != nil && (forall b int :: 0 <= b && b < 256 ==> index[b] == lidx(alpha, b)) && (forall k int :: 0 <= k && k < len(a) ==> len(a[k]) == let) && (forall k int :: 0 <= k && k < len(rSeq) ==> lidx(alpha, rSeq[k].L) >= 0) && (forall k int :: 0 <= k && k < len(qSeq) ==> lidx(alpha, qSeq[k].L) >= 0)
 //@   loop 9 invariant [aln] (arr(aln) == 0 && cap(aln) == 0) || (fresh(aln) && allocated(aln))
-//@   loop 9 invariant [pairs] forall k int :: 0 <= k && k < len(aln) ==> wfPair(aln[k])
+//@   loop 9 invariant [pairs] forall k int :: 0 <= k && k < len(aln) ==> wfPair(aln[k], len(rSeq), len(qSeq))
 //@   loop 9 writes fresh
 
 //@ func (SW).alignLetters
@@ -164,13 +166,13 @@ package align
 //@   loop 3 invariant [dims] r == len(rSeq) + 1 && c == len(qSeq) + 1 && len(table) == r * c && fresh(table)
 //@   loop 3 invariant [valid] (c > 1 ==> forall k int :: 0 <= k && k < i - 1 ==> lidx(alpha, rSeq[k]) >= 0) && (i > 1 && c > 1 ==> (forall k int :: 0 <= k && k < len(qSeq) ==> lidx(alpha, qSeq[k]) >= 0)) && (j > 1 ==> lidx(alpha, rSeq[i-1]) >= 0) && (forall k int :: 0 <= k && k < j - 1 ==> lidx(alpha, qSeq[k]) >= 0)
 //@   loop 4 invariant 0 <= i && i < r && 0 <= j && j < c && ref(index) == idxRef(alpha) && let == len(a) && let >= alphaLen(alpha) && len(la) == let * let && index != nil && (forall b int :: 0 <= b && b < 256 ==> index[b] == lidx(alpha, b)) && (forall k int :: 0 <= k && k < len(a) ==> len(a[k]) == let) && r == len(rSeq) + 1 && c == len(qSeq) + 1 && len(table) == r * c && fresh(table) && (c > 1 ==> (forall k int :: 0 <= k && k < len(rSeq) ==> lidx(alpha, rSeq[k]) >= 0)) && (r > 1 ==> (forall k int :: 0 <= k && k < len(qSeq) ==> lidx(alpha, qSeq[k]) >= 0))
-//@   loop 4 invariant [shape] i <= maxI && j <= maxJ && (last == 0 ==> maxI - i == maxJ - j) && (last == 1 ==> maxJ == j) && (last == 2 ==> maxI == i) && 0 <= last && last <= 2 && (i == r - 1 && j == c - 1 ==> maxI == i && maxJ == j) && maxI < r && maxJ < c
+//@   loop 4 invariant [shape] 0 <= i && 0 <= j && i <= maxI && j <= maxJ && (last == 0 ==> maxI - i == maxJ - j) && (last == 1 ==> maxJ == j) && (last == 2 ==> maxI == i) && 0 <= last && last <= 2 && (i == r - 1 && j == c - 1 ==> maxI == i && maxJ == j) && maxI < r && maxJ < c
 //@   loop 4 invariant [aln] (arr(aln) == 0 && cap(aln) == 0) || (fresh(aln) && allocated(aln))
-//@   loop 4 invariant [pairs] forall k int :: 0 <= k && k < len(aln) ==> wfPair(aln[k])
+//@   loop 4 invariant [pairs] forall k int :: 0 <= k && k < len(aln) ==> wfPair(aln[k], len(rSeq), len(qSeq))
 //@   loop 4 writes fresh
 //@   loop 5 invariant 0 <= i && j == len(aln) - 1 - i && ref(index) == idxRef(alpha) && let == len(a) && let >= alphaLen(alpha) && len(la) == let * let && index != nil && (forall b int :: 0 <= b && b < 256 ==> index[b] == lidx(alpha, b)) && (forall k int :: 0 <= k && k < len(a) ==> len(a[k]) == let) && (c > 1 ==> (forall k int :: 0 <= k && k < len(rSeq) ==> lidx(alpha, rSeq[k]) >= 0)) && (r > 1 ==> (forall k int :: 0 <= k && k < len(qSeq) ==> lidx(alpha, qSeq[k]) >= 0)) && r == len(rSeq) + 1 && c == len(qSeq) + 1
 //@   loop 5 invariant [aln] (arr(aln) == 0 && cap(aln) == 0) || (fresh(aln) && allocated(aln))
-//@   loop 5 invariant [pairs] forall k int :: 0 <= k && k < len(aln) ==> wfPair(aln[k])
+//@   loop 5 invariant [pairs] forall k int :: 0 <= k && k < len(aln) ==> wfPair(aln[k], len(rSeq), len(qSeq))
 //@   loop 5 writes fresh
 
 //@ func (SW).alignQLetters
@@ -190,20 +192,20 @@ package align
 //@   loop 3 invariant [dims] r == len(rSeq) + 1 && c == len(qSeq) + 1 && len(table) == r * c && fresh(table)
 //@   loop 3 invariant [valid] (c > 1 ==> forall k int :: 0 <= k && k < i - 1 ==> lidx(alpha, rSeq[k].L) >= 0) && (i > 1 && c > 1 ==> (forall k int :: 0 <= k && k < len(qSeq) ==> lidx(alpha, qSeq[k].L) >= 0)) && (j > 1 ==> lidx(alpha, rSeq[i-1].L) >= 0) && (forall k int :: 0 <= k && k < j - 1 ==> lidx(alpha, qSeq[k].L) >= 0)
 //@   loop 4 invariant 0 <= i && i < r && 0 <= j && j < c && ref(index) == idxRef(alpha) && let == len(a) && let >= alphaLen(alpha) && len(la) == let * let && index != nil && (forall b int :: 0 <= b && b < 256 ==> index[b] == lidx(alpha, b)) && (forall k int :: 0 <= k && k < len(a) ==> len(a[k]) == let) && r == len(rSeq) + 1 && c == len(qSeq) + 1 && len(table) == r * c && fresh(table) && (c > 1 ==> (forall k int :: 0 <= k && k < len(rSeq) ==> lidx(alpha, rSeq[k].L) >= 0)) && (r > 1 ==> (forall k int :: 0 <= k && k < len(qSeq) ==> lidx(alpha, qSeq[k].L) >= 0))
-//@   loop 4 invariant [shape] i <= maxI && j <= maxJ && (last == 0 ==> maxI - i == maxJ - j) && (last == 1 ==> maxJ == j) && (last == 2 ==> maxI == i) && 0 <= last && last <= 2 && (i == r - 1 && j == c - 1 ==> maxI == i && maxJ == j) && maxI < r && maxJ < c
+//@   loop 4 invariant [shape] 0 <= i && 0 <= j && i <= maxI && j <= maxJ && (last == 0 ==> maxI - i == maxJ - j) && (last == 1 ==> maxJ == j) && (last == 2 ==> maxI == i) && 0 <= last && last <= 2 && (i == r - 1 && j == c - 1 ==> maxI == i && maxJ == j) && maxI < r && maxJ < c
 //@   loop 4 invariant [aln] (arr(aln) == 0 && cap(aln) == 0) || (fresh(aln) && allocated(aln))
-//@   loop 4 invariant [pairs] forall k int :: 0 <= k && k < len(aln) ==> wfPair(aln[k])
+//@   loop 4 invariant [pairs] forall k int :: 0 <= k && k < len(aln) ==> wfPair(aln[k], len(rSeq), len(qSeq))
 //@   loop 4 writes fresh
 //@   loop 5 invariant 0 <= i && j == len(aln) - 1 - i && ref(index) == idxRef(alpha) && let == len(a) && let >= alphaLen(alpha) && len(la) == let * let && index != nil && (forall b int :: 0 <= b && b < 256 ==> index[b] == lidx(alpha, b)) && (forall k int :: 0 <= k && k < len(a) ==> len(a[k]) == let) && (c > 1 ==> (forall k int :: 0 <= k && k < len(rSeq) ==> lidx(alpha, rSeq[k].L) >= 0)) && (r > 1 ==> (forall k int :: 0 <= k && k < len(qSeq) ==> lidx(alpha, qSeq[k].L) >= 0)) && r == len(rSeq) + 1 && c == len(qSeq) + 1
 //@   loop 5 invariant [aln] (arr(aln) == 0 && cap(aln) == 0) || (fresh(aln) && allocated(aln))
-//@   loop 5 invariant [pairs] forall k int :: 0 <= k && k < len(aln) ==> wfPair(aln[k])
+//@   loop 5 invariant [pairs] forall k int :: 0 <= k && k < len(aln) ==> wfPair(aln[k], len(rSeq), len(qSeq))
 //@   loop 5 writes fresh
 
 //@ func (Fitted).alignLetters
 //@   property C09
 //@   maypanic
 //@   requires alpha != nil && allocated(idxRef(alpha)) && len(qSeq) > 0
-//@   ensures [pairs] result1 == nil ==> forall k int :: 0 <= k && k < len(result0) ==> wfPair(result0[k])
+//@   ensures [pairs] result1 == nil ==> forall k int :: 0 <= k && k < len(result0) ==> wfPair(result0[k], len(rSeq), len(qSeq))
 //@   ensures [illegal-reference] (exists k int :: 0 <= k && k < len(rSeq) && lidx(alpha, rSeq[k]) < 0) ==> result1 != nil
 //@   ensures [illegal-query]     (exists k int :: 0 <= k && k < len(qSeq) && lidx(alpha, qSeq[k]) < 0) ==> result1 != nil
 //@   ensures [undersized]        len(a) < alphaLen(alpha) ==> result1 != nil
@@ -216,25 +218,25 @@ package align
 //@   loop 6 invariant 1 <= i && i < r && 1 <= j && j <= c && ref(index) == idxRef(alpha) && let == len(a) && let >= alphaLen(alpha) && len(la) == let * let && index != nil && (forall b int :: 0 <= b && b < 256 ==> index[b] == lidx(alpha, b)) && (forall k int :: 0 <= k && k < len(a) ==> len(a[k]) == let) && (forall k int :: 0 <= k && k < len(rSeq) ==> lidx(alpha, rSeq[k]) >= 0) && (forall k int :: 0 <= k && k < len(qSeq) ==> lidx(alpha, qSeq[k]) >= 0) && r == len(rSeq) + 1 && c == len(qSeq) + 1 && len(table) == r * c && fresh(table)
 //@   loop 7 invariant j == c - 1 && i == 0 && ref(index) == idxRef(alpha) && let == len(a) && let >= alphaLen(alpha) && len(la) == let * let && index != nil && (forall b int :: 0 <= b && b < 256 ==> index[b] == lidx(alpha, b)) && (forall k int :: 0 <= k && k < len(a) ==> len(a[k]) == let) && (forall k int :: 0 <= k && k < len(rSeq) ==> lidx(alpha, rSeq[k]) >= 0) && (forall k int :: 0 <= k && k < len(qSeq) ==> lidx(alpha, qSeq[k]) >= 0) && r == len(rSeq) + 1 && c == len(qSeq) + 1 && len(table) == r * c && fresh(table)
 //@   loop 7 invariant [aln] (arr(aln) == 0 && cap(aln) == 0) || (fresh(aln) && allocated(aln))
-//@   loop 7 invariant [pairs] forall k int :: 0 <= k && k < len(aln) ==> wfPair(aln[k])
+//@   loop 7 invariant [pairs] forall k int :: 0 <= k && k < len(aln) ==> wfPair(aln[k], len(rSeq), len(qSeq))
 //@   loop 8 invariant 1 <= y && y <= r && j == c - 1 && 0 <= i && i < r && 0 <= qVal && qVal < let && ref(index) == idxRef(alpha) && let == len(a) && let >= alphaLen(alpha) && len(la) == let * let && index != nil && (forall b int :: 0 <= b && b < 256 ==> index[b] == lidx(alpha, b)) && (forall k int :: 0 <= k && k < len(a) ==> len(a[k]) == let) && (forall k int :: 0 <= k && k < len(rSeq) ==> lidx(alpha, rSeq[k]) >= 0) && (forall k int :: 0 <= k && k < len(qSeq) ==> lidx(alpha, qSeq[k]) >= 0) && r == len(rSeq) + 1 && c == len(qSeq) + 1 && len(table) == r * c && fresh(table)
 //@   loop 8 invariant [aln] (arr(aln) == 0 && cap(aln) == 0) || (fresh(aln) && allocated(aln))
-//@   loop 8 invariant [pairs] forall k int :: 0 <= k && k < len(aln) ==> wfPair(aln[k])
+//@   loop 8 invariant [pairs] forall k int :: 0 <= k && k < len(aln) ==> wfPair(aln[k], len(rSeq), len(qSeq))
 //@   loop 9 invariant 0 <= i && i < r && 0 <= j && j < c && ref(index) == idxRef(alpha) && let == len(a) && let >= alphaLen(alpha) && len(la) == let * let && index != nil && (forall b int :: 0 <= b && b < 256 ==> index[b] == lidx(alpha, b)) && (forall k int :: 0 <= k && k < len(a) ==> len(a[k]) == let) && (forall k int :: 0 <= k && k < len(rSeq) ==> lidx(alpha, rSeq[k]) >= 0) && (forall k int :: 0 <= k && k < len(qSeq) ==> lidx(alpha, qSeq[k]) >= 0) && r == len(rSeq) + 1 && c == len(qSeq) + 1 && len(table) == r * c && fresh(table)
-//@   loop 9 invariant [shape] i <= maxI && j <= maxJ && (last == 0 ==> maxI - i == maxJ - j) && (last == 1 ==> maxJ == j) && (last == 2 ==> maxI == i) && 0 <= last && last <= 2 && (i == r - 1 && j == c - 1 ==> maxI == i && maxJ == j) && maxI < r && maxJ < c
+//@   loop 9 invariant [shape] 0 <= i && 0 <= j && i <= maxI && j <= maxJ && (last == 0 ==> maxI - i == maxJ - j) && (last == 1 ==> maxJ == j) && (last == 2 ==> maxI == i) && 0 <= last && last <= 2 && (i == r - 1 && j == c - 1 ==> maxI == i && maxJ == j) && maxI < r && maxJ < c
 //@   loop 9 invariant [aln] (arr(aln) == 0 && cap(aln) == 0) || (fresh(aln) && allocated(aln))
-//@   loop 9 invariant [pairs] forall k int :: 0 <= k && k < len(aln) ==> wfPair(aln[k])
+//@   loop 9 invariant [pairs] forall k int :: 0 <= k && k < len(aln) ==> wfPair(aln[k], len(rSeq), len(qSeq))
 //@   loop 9 writes fresh
 //@   loop 10 invariant 0 <= i && j == len(aln) - 1 - i && ref(index) == idxRef(alpha) && let == len(a) && let >= alphaLen(alpha) && len(la) == let * let && index != nil && (forall b int :: 0 <= b && b < 256 ==> index[b] == lidx(alpha, b)) && (forall k int :: 0 <= k && k < len(a) ==> len(a[k]) == let) && (forall k int :: 0 <= k && k < len(rSeq) ==> lidx(alpha, rSeq[k]) >= 0) && (forall k int :: 0 <= k && k < len(qSeq) ==> lidx(alpha, qSeq[k]) >= 0)
 //@   loop 10 invariant [aln] (arr(aln) == 0 && cap(aln) == 0) || (fresh(aln) && allocated(aln))
-//@   loop 10 invariant [pairs] forall k int :: 0 <= k && k < len(aln) ==> wfPair(aln[k])
+//@   loop 10 invariant [pairs] forall k int :: 0 <= k && k < len(aln) ==> wfPair(aln[k], len(rSeq), len(qSeq))
 //@   loop 10 writes fresh
 
 //@ func (Fitted).alignQLetters
 //@   property C09
 //@   maypanic
 //@   requires alpha != nil && allocated(idxRef(alpha)) && len(qSeq) > 0
-//@   ensures [pairs] result1 == nil ==> forall k int :: 0 <= k && k < len(result0) ==> wfPair(result0[k])
+//@   ensures [pairs] result1 == nil ==> forall k int :: 0 <= k && k < len(result0) ==> wfPair(result0[k], len(rSeq), len(qSeq))
 //@   ensures [illegal-reference] (exists k int :: 0 <= k && k < len(rSeq) && lidx(alpha, rSeq[k].L) < 0) ==> result1 != nil
 //@   ensures [illegal-query]     (exists k int :: 0 <= k && k < len(qSeq) && lidx(alpha, qSeq[k].L) < 0) ==> result1 != nil
 //@   ensures [undersized]        len(a) < alphaLen(alpha) ==> result1 != nil
@@ -247,25 +249,25 @@ package align
 //@   loop 6 invariant 1 <= i && i < r && 1 <= j && j <= c && ref(index) == idxRef(alpha) && let == len(a) && let >= alphaLen(alpha) && len(la) == let * let && index != nil && (forall b int :: 0 <= b && b < 256 ==> index[b] == lidx(alpha, b)) && (forall k int :: 0 <= k && k < len(a) ==> len(a[k]) == let) && (forall k int :: 0 <= k && k < len(rSeq) ==> lidx(alpha, rSeq[k].L) >= 0) && (forall k int :: 0 <= k && k < len(qSeq) ==> lidx(alpha, qSeq[k].L) >= 0) && r == len(rSeq) + 1 && c == len(qSeq) + 1 && len(table) == r * c && fresh(table)
 //@   loop 7 invariant j == c - 1 && i == 0 && ref(index) == idxRef(alpha) && let == len(a) && let >= alphaLen(alpha) && len(la) == let * let && index != nil && (forall b int :: 0 <= b && b < 256 ==> index[b] == lidx(alpha, b)) && (forall k int :: 0 <= k && k < len(a) ==> len(a[k]) == let) && (forall k int :: 0 <= k && k < len(rSeq) ==> lidx(alpha, rSeq[k].L) >= 0) && (forall k int :: 0 <= k && k < len(qSeq) ==> lidx(alpha, qSeq[k].L) >= 0) && r == len(rSeq) + 1 && c == len(qSeq) + 1 && len(table) == r * c && fresh(table)
 //@   loop 7 invariant [aln] (arr(aln) == 0 && cap(aln) == 0) || (fresh(aln) && allocated(aln))
-//@   loop 7 invariant [pairs] forall k int :: 0 <= k && k < len(aln) ==> wfPair(aln[k])
+//@   loop 7 invariant [pairs] forall k int :: 0 <= k && k < len(aln) ==> wfPair(aln[k], len(rSeq), len(qSeq))
 //@   loop 8 invariant 1 <= y && y <= r && j == c - 1 && 0 <= i && i < r && 0 <= qVal && qVal < let && ref(index) == idxRef(alpha) && let == len(a) && let >= alphaLen(alpha) && len(la) == let * let && index != nil && (forall b int :: 0 <= b && b < 256 ==> index[b] == lidx(alpha, b)) && (forall k int :: 0 <= k && k < len(a) ==> len(a[k]) == let) && (forall k int :: 0 <= k && k < len(rSeq) ==> lidx(alpha, rSeq[k].L) >= 0) && (forall k int :: 0 <= k && k < len(qSeq) ==> lidx(alpha, qSeq[k].L) >= 0) && r == len(rSeq) + 1 && c == len(qSeq) + 1 && len(table) == r * c && fresh(table)
 //@   loop 8 invariant [aln] (arr(aln) == 0 && cap(aln) == 0) || (fresh(aln) && allocated(aln))
-//@   loop 8 invariant [pairs] forall k int :: 0 <= k && k < len(aln) ==> wfPair(aln[k])
+//@   loop 8 invariant [pairs] forall k int :: 0 <= k && k < len(aln) ==> wfPair(aln[k], len(rSeq), len(qSeq))
 //@   loop 9 invariant 0 <= i && i < r && 0 <= j && j < c && ref(index) == idxRef(alpha) && let == len(a) && let >= alphaLen(alpha) && len(la) == let * let && index != nil && (forall b int :: 0 <= b && b < 256 ==> index[b] == lidx(alpha, b)) && (forall k int :: 0 <= k && k < len(a) ==> len(a[k]) == let) && (forall k int :: 0 <= k && k < len(rSeq) ==> lidx(alpha, rSeq[k].L) >= 0) && (forall k int :: 0 <= k && k < len(qSeq) ==> lidx(alpha, qSeq[k].L) >= 0) && r == len(rSeq) + 1 && c == len(qSeq) + 1 && len(table) == r * c && fresh(table)
-//@   loop 9 invariant [shape] i <= maxI && j <= maxJ && (last == 0 ==> maxI - i == maxJ - j) && (last == 1 ==> maxJ == j) && (last == 2 ==> maxI == i) && 0 <= last && last <= 2 && (i == r - 1 && j == c - 1 ==> maxI == i && maxJ == j) && maxI < r && maxJ < c
+//@   loop 9 invariant [shape] 0 <= i && 0 <= j && i <= maxI && j <= maxJ && (last == 0 ==> maxI - i == maxJ - j) && (last == 1 ==> maxJ == j) && (last == 2 ==> maxI == i) && 0 <= last && last <= 2 && (i == r - 1 && j == c - 1 ==> maxI == i && maxJ == j) && maxI < r && maxJ < c
 //@   loop 9 invariant [aln] (arr(aln) == 0 && cap(aln) == 0) || (fresh(aln) && allocated(aln))
-//@   loop 9 invariant [pairs] forall k int :: 0 <= k && k < len(aln) ==> wfPair(aln[k])
+//@   loop 9 invariant [pairs] forall k int :: 0 <= k && k < len(aln) ==> wfPair(aln[k], len(rSeq), len(qSeq))
 //@   loop 9 writes fresh
 //@   loop 10 invariant 0 <= i && j == len(aln) - 1 - i && ref(index) == idxRef(alpha) && let == len(a) && let >= alphaLen(alpha) && len(la) == let * let && index != nil && (forall b int :: 0 <= b && b < 256 ==> index[b] == lidx(alpha, b)) && (forall k int :: 0 <= k && k < len(a) ==> len(a[k]) == let) && (forall k int :: 0 <= k && k < len(rSeq) ==> lidx(alpha, rSeq[k].L) >= 0) && (forall k int :: 0 <= k && k < len(qSeq) ==> lidx(alpha, qSeq[k].L) >= 0)
 //@   loop 10 invariant [aln] (arr(aln) == 0 && cap(aln) == 0) || (fresh(aln) && allocated(aln))
-//@   loop 10 invariant [pairs] forall k int :: 0 <= k && k < len(aln) ==> wfPair(aln[k])
+//@   loop 10 invariant [pairs] forall k int :: 0 <= k && k < len(aln) ==> wfPair(aln[k], len(rSeq), len(qSeq))
 //@   loop 10 writes fresh
 
 //@ func (NWAffine).alignLetters
 //@   property C09
 //@   maypanic
 //@   requires alpha != nil && allocated(idxRef(alpha)) && len(rSeq) > 0 && len(qSeq) > 0
-//@   ensures [pairs] result1 == nil ==> forall k int :: 0 <= k && k < len(result0) ==> wfPair(result0[k])
+//@   ensures [pairs] result1 == nil ==> forall k int :: 0 <= k && k < len(result0) ==> wfPair(result0[k], len(rSeq), len(qSeq))
 //@   ensures [illegal-reference] (exists k int :: 0 <= k && k < len(rSeq) && lidx(alpha, rSeq[k]) < 0) ==> result1 != nil
 //@   ensures [illegal-query]     (exists k int :: 0 <= k && k < len(qSeq) && lidx(alpha, qSeq[k]) < 0) ==> result1 != nil
 //@   ensures [undersized]        len(a.Matrix) < alphaLen(alpha) ==> result1 != nil
@@ -279,22 +281,22 @@ package align
 //@   loop 7 invariant 1 <= i && i < r && 1 <= j && j <= c && ref(index) == idxRef(alpha) && let == len(a.Matrix) && let >= alphaLen(alpha) && len(la) == let * let && index != nil && (forall b int :: 0 <= b && b < 256 ==> index[b] == lidx(alpha, b)) && (forall k int :: 0 <= k && k < len(a.Matrix) ==> len(a.Matrix[k]) == let) && (forall k int :: 0 <= k && k < len(rSeq) ==> lidx(alpha, rSeq[k]) >= 0) && (forall k int :: 0 <= k && k < len(qSeq) ==> lidx(alpha, qSeq[k]) >= 0) && r == len(rSeq) + 1 && c == len(qSeq) + 1 && len(table) == r * c && fresh(table)
 //@   loop 8 invariant 0 <= idx && idx <= 2 && 0 <= layer && layer <= 2 && ref(index) == idxRef(alpha) && let == len(a.Matrix) && let >= alphaLen(alpha) && len(la) == let * let && index != nil && (forall b int :: 0 <= b && b < 256 ==> index[b] == lidx(alpha, b)) && (forall k int :: 0 <= k && k < len(a.Matrix) ==> len(a.Matrix[k]) == let) && (forall k int :: 0 <= k && k < len(rSeq) ==> lidx(alpha, rSeq[k]) >= 0) && (forall k int :: 0 <= k && k < len(qSeq) ==> lidx(alpha, qSeq[k]) >= 0) && r == len(rSeq) + 1 && c == len(qSeq) + 1 && len(table) == r * c && fresh(table)
 //@   loop 8 invariant [aln] (arr(aln) == 0 && cap(aln) == 0) || (fresh(aln) && allocated(aln))
-//@   loop 8 invariant [pairs] forall k int :: 0 <= k && k < len(aln) ==> wfPair(aln[k])
+//@   loop 8 invariant [pairs] forall k int :: 0 <= k && k < len(aln) ==> wfPair(aln[k], len(rSeq), len(qSeq))
 //@   loop 9 invariant 0 <= i && i < r && 0 <= j && j < c && 0 <= layer && layer <= 2 && ref(index) == idxRef(alpha) && let == len(a.Matrix) && let >= alphaLen(alpha) && len(la) == let * let && index != nil && (forall b int :: 0 <= b && b < 256 ==> index[b] == lidx(alpha, b)) && (forall k int :: 0 <= k && k < len(a.Matrix) ==> len(a.Matrix[k]) == let) && (forall k int :: 0 <= k && k < len(rSeq) ==> lidx(alpha, rSeq[k]) >= 0) && (forall k int :: 0 <= k && k < len(qSeq) ==> lidx(alpha, qSeq[k]) >= 0) && r == len(rSeq) + 1 && c == len(qSeq) + 1 && len(table) == r * c && fresh(table)
-//@   loop 9 invariant [shape] i <= maxI && j <= maxJ && (last == 0 ==> maxI - i == maxJ - j) && (last == 1 ==> maxJ == j) && (last == 2 ==> maxI == i) && 0 <= last && last <= 2 && (i == r - 1 && j == c - 1 ==> maxI == i && maxJ == j) && maxI < r && maxJ < c
+//@   loop 9 invariant [shape] 0 <= i && 0 <= j && i <= maxI && j <= maxJ && (last == 0 ==> maxI - i == maxJ - j) && (last == 1 ==> maxJ == j) && (last == 2 ==> maxI == i) && 0 <= last && last <= 2 && (i == r - 1 && j == c - 1 ==> maxI == i && maxJ == j) && maxI < r && maxJ < c
 //@   loop 9 invariant [aln] (arr(aln) == 0 && cap(aln) == 0) || (fresh(aln) && allocated(aln))
-//@   loop 9 invariant [pairs] forall k int :: 0 <= k && k < len(aln) ==> wfPair(aln[k])
+//@   loop 9 invariant [pairs] forall k int :: 0 <= k && k < len(aln) ==> wfPair(aln[k], len(rSeq), len(qSeq))
 //@   loop 9 writes fresh
 //@   loop 10 invariant 0 <= i && j == len(aln) - 1 - i && ref(index) == idxRef(alpha) && let == len(a.Matrix) && let >= alphaLen(alpha) && len(la) == let * let && index != nil && (forall b int :: 0 <= b && b < 256 ==> index[b] == lidx(alpha, b)) && (forall k int :: 0 <= k && k < len(a.Matrix) ==> len(a.Matrix[k]) == let) && (forall k int :: 0 <= k && k < len(rSeq) ==> lidx(alpha, rSeq[k]) >= 0) && (forall k int :: 0 <= k && k < len(qSeq) ==> lidx(alpha, qSeq[k]) >= 0)
 //@   loop 10 invariant [aln] (arr(aln) == 0 && cap(aln) == 0) || (fresh(aln) && allocated(aln))
-//@   loop 10 invariant [pairs] forall k int :: 0 <= k && k < len(aln) ==> wfPair(aln[k])
+//@   loop 10 invariant [pairs] forall k int :: 0 <= k && k < len(aln) ==> wfPair(aln[k], len(rSeq), len(qSeq))
 //@   loop 10 writes fresh
 
 //@ func (NWAffine).alignQLetters
 //@   property C09
 //@   maypanic
 //@   requires alpha != nil && allocated(idxRef(alpha)) && len(rSeq) > 0 && len(qSeq) > 0
-//@   ensures [pairs] result1 == nil ==> forall k int :: 0 <= k && k < len(result0) ==> wfPair(result0[k])
+//@   ensures [pairs] result1 == nil ==> forall k int :: 0 <= k && k < len(result0) ==> wfPair(result0[k], len(rSeq), len(qSeq))
 //@   ensures [illegal-reference] (exists k int :: 0 <= k && k < len(rSeq) && lidx(alpha, rSeq[k].L) < 0) ==> result1 != nil
 //@   ensures [illegal-query]     (exists k int :: 0 <= k && k < len(qSeq) && lidx(alpha, qSeq[k].L) < 0) ==> result1 != nil
 //@   ensures [undersized]        len(a.Matrix) < alphaLen(alpha) ==> result1 != nil
@@ -308,15 +310,15 @@ package align
 //@   loop 7 invariant 1 <= i && i < r && 1 <= j && j <= c && ref(index) == idxRef(alpha) && let == len(a.Matrix) && let >= alphaLen(alpha) && len(la) == let * let && index != nil && (forall b int :: 0 <= b && b < 256 ==> index[b] == lidx(alpha, b)) && (forall k int :: 0 <= k && k < len(a.Matrix) ==> len(a.Matrix[k]) == let) && (forall k int :: 0 <= k && k < len(rSeq) ==> lidx(alpha, rSeq[k].L) >= 0) && (forall k int :: 0 <= k && k < len(qSeq) ==> lidx(alpha, qSeq[k].L) >= 0) && r == len(rSeq) + 1 && c == len(qSeq) + 1 && len(table) == r * c && fresh(table)
 //@   loop 8 invariant 0 <= idx && idx <= 2 && 0 <= layer && layer <= 2 && ref(index) == idxRef(alpha) && let == len(a.Matrix) && let >= alphaLen(alpha) && len(la) == let * let && index != nil && (forall b int :: 0 <= b && b < 256 ==> index[b] == lidx(alpha, b)) && (forall k int :: 0 <= k && k < len(a.Matrix) ==> len(a.Matrix[k]) == let) && (forall k int :: 0 <= k && k < len(rSeq) ==> lidx(alpha, rSeq[k].L) >= 0) && (forall k int :: 0 <= k && k < len(qSeq) ==> lidx(alpha, qSeq[k].L) >= 0) && r == len(rSeq) + 1 && c == len(qSeq) + 1 && len(table) == r * c && fresh(table)
 //@   loop 8 invariant [aln] (arr(aln) == 0 && cap(aln) == 0) || (fresh(aln) && allocated(aln))
-//@   loop 8 invariant [pairs] forall k int :: 0 <= k && k < len(aln) ==> wfPair(aln[k])
+//@   loop 8 invariant [pairs] forall k int :: 0 <= k && k < len(aln) ==> wfPair(aln[k], len(rSeq), len(qSeq))
 //@   loop 9 invariant 0 <= i && i < r && 0 <= j && j < c && 0 <= layer && layer <= 2 && ref(index) == idxRef(alpha) && let == len(a.Matrix) && let >= alphaLen(alpha) && len(la) == let * let && index != nil && (forall b int :: 0 <= b && b < 256 ==> index[b] == lidx(alpha, b)) && (forall k int :: 0 <= k && k < len(a.Matrix) ==> len(a.Matrix[k]) == let) && (forall k int :: 0 <= k && k < len(rSeq) ==> lidx(alpha, rSeq[k].L) >= 0) && (forall k int :: 0 <= k && k < len(qSeq) ==> lidx(alpha, qSeq[k].L) >= 0) && r == len(rSeq) + 1 && c == len(qSeq) + 1 && len(table) == r * c && fresh(table)
-//@   loop 9 invariant [shape] i <= maxI && j <= maxJ && (last == 0 ==> maxI - i == maxJ - j) && (last == 1 ==> maxJ == j) && (last == 2 ==> maxI == i) && 0 <= last && last <= 2 && (i == r - 1 && j == c - 1 ==> maxI == i && maxJ == j) && maxI < r && maxJ < c
+//@   loop 9 invariant [shape] 0 <= i && 0 <= j && i <= maxI && j <= maxJ && (last == 0 ==> maxI - i == maxJ - j) && (last == 1 ==> maxJ == j) && (last == 2 ==> maxI == i) && 0 <= last && last <= 2 && (i == r - 1 && j == c - 1 ==> maxI == i && maxJ == j) && maxI < r && maxJ < c
 //@   loop 9 invariant [aln] (arr(aln) == 0 && cap(aln) == 0) || (fresh(aln) && allocated(aln))
-//@   loop 9 invariant [pairs] forall k int :: 0 <= k && k < len(aln) ==> wfPair(aln[k])
+//@   loop 9 invariant [pairs] forall k int :: 0 <= k && k < len(aln) ==> wfPair(aln[k], len(rSeq), len(qSeq))
 //@   loop 9 writes fresh
 //@   loop 10 invariant 0 <= i && j == len(aln) - 1 - i && ref(index) == idxRef(alpha) && let == len(a.Matrix) && let >= alphaLen(alpha) && len(la) == let * let && index != nil && (forall b int :: 0 <= b && b < 256 ==> index[b] == lidx(alpha, b)) && (forall k int :: 0 <= k && k < len(a.Matrix) ==> len(a.Matrix[k]) == let) && (forall k int :: 0 <= k && k < len(rSeq) ==> lidx(alpha, rSeq[k].L) >= 0) && (forall k int :: 0 <= k && k < len(qSeq) ==> lidx(alpha, qSeq[k].L) >= 0)
 //@   loop 10 invariant [aln] (arr(aln) == 0 && cap(aln) == 0) || (fresh(aln) && allocated(aln))
-//@   loop 10 invariant [pairs] forall k int :: 0 <= k && k < len(aln) ==> wfPair(aln[k])
+//@   loop 10 invariant [pairs] forall k int :: 0 <= k && k < len(aln) ==> wfPair(aln[k], len(rSeq), len(qSeq))
 //@   loop 10 writes fresh
 
 //@ func (SWAffine).alignLetters
@@ -336,13 +338,13 @@ package align
 //@   loop 3 invariant [dims] r == len(rSeq) + 1 && c == len(qSeq) + 1 && len(table) == r * c && fresh(table)
 //@   loop 3 invariant [valid] (c > 1 ==> forall k int :: 0 <= k && k < i - 1 ==> lidx(alpha, rSeq[k]) >= 0) && (i > 1 && c > 1 ==> (forall k int :: 0 <= k && k < len(qSeq) ==> lidx(alpha, qSeq[k]) >= 0)) && (j > 1 ==> lidx(alpha, rSeq[i-1]) >= 0) && (forall k int :: 0 <= k && k < j - 1 ==> lidx(alpha, qSeq[k]) >= 0)
 //@   loop 4 invariant 0 <= i && i < r && 0 <= j && j < c && 0 <= layer && layer <= 2 && ref(index) == idxRef(alpha) && let == len(a.Matrix) && let >= alphaLen(alpha) && len(la) == let * let && index != nil && (forall b int :: 0 <= b && b < 256 ==> index[b] == lidx(alpha, b)) && (forall k int :: 0 <= k && k < len(a.Matrix) ==> len(a.Matrix[k]) == let) && r == len(rSeq) + 1 && c == len(qSeq) + 1 && len(table) == r * c && fresh(table) && (c > 1 ==> (forall k int :: 0 <= k && k < len(rSeq) ==> lidx(alpha, rSeq[k]) >= 0)) && (r > 1 ==> (forall k int :: 0 <= k && k < len(qSeq) ==> lidx(alpha, qSeq[k]) >= 0))
-//@   loop 4 invariant [shape] i <= maxI && j <= maxJ && (last == 0 ==> maxI - i == maxJ - j) && (last == 1 ==> maxJ == j) && (last == 2 ==> maxI == i) && 0 <= last && last <= 2 && (i == r - 1 && j == c - 1 ==> maxI == i && maxJ == j) && maxI < r && maxJ < c
+//@   loop 4 invariant [shape] 0 <= i && 0 <= j && i <= maxI && j <= maxJ && (last == 0 ==> maxI - i == maxJ - j) && (last == 1 ==> maxJ == j) && (last == 2 ==> maxI == i) && 0 <= last && last <= 2 && (i == r - 1 && j == c - 1 ==> maxI == i && maxJ == j) && maxI < r && maxJ < c
 //@   loop 4 invariant [aln] (arr(aln) == 0 && cap(aln) == 0) || (fresh(aln) && allocated(aln))
-//@   loop 4 invariant [pairs] forall k int :: 0 <= k && k < len(aln) ==> wfPair(aln[k])
+//@   loop 4 invariant [pairs] forall k int :: 0 <= k && k < len(aln) ==> wfPair(aln[k], len(rSeq), len(qSeq))
 //@   loop 4 writes fresh
 //@   loop 5 invariant 0 <= i && j == len(aln) - 1 - i && ref(index) == idxRef(alpha) && let == len(a.Matrix) && let >= alphaLen(alpha) && len(la) == let * let && index != nil && (forall b int :: 0 <= b && b < 256 ==> index[b] == lidx(alpha, b)) && (forall k int :: 0 <= k && k < len(a.Matrix) ==> len(a.Matrix[k]) == let) && (c > 1 ==> (forall k int :: 0 <= k && k < len(rSeq) ==> lidx(alpha, rSeq[k]) >= 0)) && (r > 1 ==> (forall k int :: 0 <= k && k < len(qSeq) ==> lidx(alpha, qSeq[k]) >= 0)) && r == len(rSeq) + 1 && c == len(qSeq) + 1
 //@   loop 5 invariant [aln] (arr(aln) == 0 && cap(aln) == 0) || (fresh(aln) && allocated(aln))
-//@   loop 5 invariant [pairs] forall k int :: 0 <= k && k < len(aln) ==> wfPair(aln[k])
+//@   loop 5 invariant [pairs] forall k int :: 0 <= k && k < len(aln) ==> wfPair(aln[k], len(rSeq), len(qSeq))
 //@   loop 5 writes fresh
 
 //@ func (SWAffine).alignQLetters
@@ -362,20 +364,20 @@ package align
 //@   loop 3 invariant [dims] r == len(rSeq) + 1 && c == len(qSeq) + 1 && len(table) == r * c && fresh(table)
 //@   loop 3 invariant [valid] (c > 1 ==> forall k int :: 0 <= k && k < i - 1 ==> lidx(alpha, rSeq[k].L) >= 0) && (i > 1 && c > 1 ==> (forall k int :: 0 <= k && k < len(qSeq) ==> lidx(alpha, qSeq[k].L) >= 0)) && (j > 1 ==> lidx(alpha, rSeq[i-1].L) >= 0) && (forall k int :: 0 <= k && k < j - 1 ==> lidx(alpha, qSeq[k].L) >= 0)
 //@   loop 4 invariant 0 <= i && i < r && 0 <= j && j < c && 0 <= layer && layer <= 2 && ref(index) == idxRef(alpha) && let == len(a.Matrix) && let >= alphaLen(alpha) && len(la) == let * let && index != nil && (forall b int :: 0 <= b && b < 256 ==> index[b] == lidx(alpha, b)) && (forall k int :: 0 <= k && k < len(a.Matrix) ==> len(a.Matrix[k]) == let) && r == len(rSeq) + 1 && c == len(qSeq) + 1 && len(table) == r * c && fresh(table) && (c > 1 ==> (forall k int :: 0 <= k && k < len(rSeq) ==> lidx(alpha, rSeq[k].L) >= 0)) && (r > 1 ==> (forall k int :: 0 <= k && k < len(qSeq) ==> lidx(alpha, qSeq[k].L) >= 0))
-//@   loop 4 invariant [shape] i <= maxI && j <= maxJ && (last == 0 ==> maxI - i == maxJ - j) && (last == 1 ==> maxJ == j) && (last == 2 ==> maxI == i) && 0 <= last && last <= 2 && (i == r - 1 && j == c - 1 ==> maxI == i && maxJ == j) && maxI < r && maxJ < c
+//@   loop 4 invariant [shape] 0 <= i && 0 <= j && i <= maxI && j <= maxJ && (last == 0 ==> maxI - i == maxJ - j) && (last == 1 ==> maxJ == j) && (last == 2 ==> maxI == i) && 0 <= last && last <= 2 && (i == r - 1 && j == c - 1 ==> maxI == i && maxJ == j) && maxI < r && maxJ < c
 //@   loop 4 invariant [aln] (arr(aln) == 0 && cap(aln) == 0) || (fresh(aln) && allocated(aln))
-//@   loop 4 invariant [pairs] forall k int :: 0 <= k && k < len(aln) ==> wfPair(aln[k])
+//@   loop 4 invariant [pairs] forall k int :: 0 <= k && k < len(aln) ==> wfPair(aln[k], len(rSeq), len(qSeq))
 //@   loop 4 writes fresh
 //@   loop 5 invariant 0 <= i && j == len(aln) - 1 - i && ref(index) == idxRef(alpha) && let == len(a.Matrix) && let >= alphaLen(alpha) && len(la) == let * let && index != nil && (forall b int :: 0 <= b && b < 256 ==> index[b] == lidx(alpha, b)) && (forall k int :: 0 <= k && k < len(a.Matrix) ==> len(a.Matrix[k]) == let) && (c > 1 ==> (forall k int :: 0 <= k && k < len(rSeq) ==> lidx(alpha, rSeq[k].L) >= 0)) && (r > 1 ==> (forall k int :: 0 <= k && k < len(qSeq) ==> lidx(alpha, qSeq[k].L) >= 0)) && r == len(rSeq) + 1 && c == len(qSeq) + 1
 //@   loop 5 invariant [aln] (arr(aln) == 0 && cap(aln) == 0) || (fresh(aln) && allocated(aln))
-//@   loop 5 invariant [pairs] forall k int :: 0 <= k && k < len(aln) ==> wfPair(aln[k])
+//@   loop 5 invariant [pairs] forall k int :: 0 <= k && k < len(aln) ==> wfPair(aln[k], len(rSeq), len(qSeq))
 //@   loop 5 writes fresh
 
 //@ func (FittedAffine).alignLetters
 //@   property C09
 //@   maypanic
 //@   requires alpha != nil && allocated(idxRef(alpha)) && len(rSeq) > 0 && len(qSeq) > 0
-//@   ensures [pairs] result1 == nil ==> forall k int :: 0 <= k && k < len(result0) ==> wfPair(result0[k])
+//@   ensures [pairs] result1 == nil ==> forall k int :: 0 <= k && k < len(result0) ==> wfPair(result0[k], len(rSeq), len(qSeq))
 //@   ensures [illegal-reference] (exists k int :: 0 <= k && k < len(rSeq) && lidx(alpha, rSeq[k]) < 0) ==> result1 != nil
 //@   ensures [illegal-query]     (exists k int :: 0 <= k && k < len(qSeq) && lidx(alpha, qSeq[k]) < 0) ==> result1 != nil
 //@   ensures [undersized]        len(a.Matrix) < alphaLen(alpha) ==> result1 != nil
@@ -389,22 +391,22 @@ package align
 //@   loop 7 invariant 1 <= i && i < r && 1 <= j && j <= c && ref(index) == idxRef(alpha) && let == len(a.Matrix) && let >= alphaLen(alpha) && len(la) == let * let && index != nil && (forall b int :: 0 <= b && b < 256 ==> index[b] == lidx(alpha, b)) && (forall k int :: 0 <= k && k < len(a.Matrix) ==> len(a.Matrix[k]) == let) && (forall k int :: 0 <= k && k < len(rSeq) ==> lidx(alpha, rSeq[k]) >= 0) && (forall k int :: 0 <= k && k < len(qSeq) ==> lidx(alpha, qSeq[k]) >= 0) && r == len(rSeq) + 1 && c == len(qSeq) + 1 && len(table) == r * c && fresh(table)
 //@   loop 8 invariant 1 <= y && y <= r && j == c - 1 && 0 <= i && i < r && layer == 0 && ref(index) == idxRef(alpha) && let == len(a.Matrix) && let >= alphaLen(alpha) && len(la) == let * let && index != nil && (forall b int :: 0 <= b && b < 256 ==> index[b] == lidx(alpha, b)) && (forall k int :: 0 <= k && k < len(a.Matrix) ==> len(a.Matrix[k]) == let) && (forall k int :: 0 <= k && k < len(rSeq) ==> lidx(alpha, rSeq[k]) >= 0) && (forall k int :: 0 <= k && k < len(qSeq) ==> lidx(alpha, qSeq[k]) >= 0) && r == len(rSeq) + 1 && c == len(qSeq) + 1 && len(table) == r * c && fresh(table)
 //@   loop 8 invariant [aln] (arr(aln) == 0 && cap(aln) == 0) || (fresh(aln) && allocated(aln))
-//@   loop 8 invariant [pairs] forall k int :: 0 <= k && k < len(aln) ==> wfPair(aln[k])
+//@   loop 8 invariant [pairs] forall k int :: 0 <= k && k < len(aln) ==> wfPair(aln[k], len(rSeq), len(qSeq))
 //@   loop 9 invariant 0 <= i && i < r && 0 <= j && j < c && 0 <= layer && layer <= 2 && ref(index) == idxRef(alpha) && let == len(a.Matrix) && let >= alphaLen(alpha) && len(la) == let * let && index != nil && (forall b int :: 0 <= b && b < 256 ==> index[b] == lidx(alpha, b)) && (forall k int :: 0 <= k && k < len(a.Matrix) ==> len(a.Matrix[k]) == let) && (forall k int :: 0 <= k && k < len(rSeq) ==> lidx(alpha, rSeq[k]) >= 0) && (forall k int :: 0 <= k && k < len(qSeq) ==> lidx(alpha, qSeq[k]) >= 0) && r == len(rSeq) + 1 && c == len(qSeq) + 1 && len(table) == r * c && fresh(table)
-//@   loop 9 invariant [shape] i <= maxI && j <= maxJ && (last == 0 ==> maxI - i == maxJ - j) && (last == 1 ==> maxJ == j) && (last == 2 ==> maxI == i) && 0 <= last && last <= 2 && (i == r - 1 && j == c - 1 ==> maxI == i && maxJ == j) && maxI < r && maxJ < c
+//@   loop 9 invariant [shape] 0 <= i && 0 <= j && i <= maxI && j <= maxJ && (last == 0 ==> maxI - i == maxJ - j) && (last == 1 ==> maxJ == j) && (last == 2 ==> maxI == i) && 0 <= last && last <= 2 && (i == r - 1 && j == c - 1 ==> maxI == i && maxJ == j) && maxI < r && maxJ < c
 //@   loop 9 invariant [aln] (arr(aln) == 0 && cap(aln) == 0) || (fresh(aln) && allocated(aln))
-//@   loop 9 invariant [pairs] forall k int :: 0 <= k && k < len(aln) ==> wfPair(aln[k])
+//@   loop 9 invariant [pairs] forall k int :: 0 <= k && k < len(aln) ==> wfPair(aln[k], len(rSeq), len(qSeq))
 //@   loop 9 writes fresh
 //@   loop 10 invariant 0 <= i && j == len(aln) - 1 - i && ref(index) == idxRef(alpha) && let == len(a.Matrix) && let >= alphaLen(alpha) && len(la) == let * let && index != nil && (forall b int :: 0 <= b && b < 256 ==> index[b] == lidx(alpha, b)) && (forall k int :: 0 <= k && k < len(a.Matrix) ==> len(a.Matrix[k]) == let) && (forall k int :: 0 <= k && k < len(rSeq) ==> lidx(alpha, rSeq[k]) >= 0) && (forall k int :: 0 <= k && k < len(qSeq) ==> lidx(alpha, qSeq[k]) >= 0)
 //@   loop 10 invariant [aln] (arr(aln) == 0 && cap(aln) == 0) || (fresh(aln) && allocated(aln))
-//@   loop 10 invariant [pairs] forall k int :: 0 <= k && k < len(aln) ==> wfPair(aln[k])
+//@   loop 10 invariant [pairs] forall k int :: 0 <= k && k < len(aln) ==> wfPair(aln[k], len(rSeq), len(qSeq))
 //@   loop 10 writes fresh
 
 //@ func (FittedAffine).alignQLetters
 //@   property C09
 //@   maypanic
 //@   requires alpha != nil && allocated(idxRef(alpha)) && len(rSeq) > 0 && len(qSeq) > 0
-//@   ensures [pairs] result1 == nil ==> forall k int :: 0 <= k && k < len(result0) ==> wfPair(result0[k])
+//@   ensures [pairs] result1 == nil ==> forall k int :: 0 <= k && k < len(result0) ==> wfPair(result0[k], len(rSeq), len(qSeq))
 //@   ensures [illegal-reference] (exists k int :: 0 <= k && k < len(rSeq) && lidx(alpha, rSeq[k].L) < 0) ==> result1 != nil
 //@   ensures [illegal-query]     (exists k int :: 0 <= k && k < len(qSeq) && lidx(alpha, qSeq[k].L) < 0) ==> result1 != nil
 //@   ensures [undersized]        len(a.Matrix) < alphaLen(alpha) ==> result1 != nil
@@ -418,13 +420,13 @@ package align
 //@   loop 7 invariant 1 <= i && i < r && 1 <= j && j <= c && ref(index) == idxRef(alpha) && let == len(a.Matrix) && let >= alphaLen(alpha) && len(la) == let * let && index != nil && (forall b int :: 0 <= b && b < 256 ==> index[b] == lidx(alpha, b)) && (forall k int :: 0 <= k && k < len(a.Matrix) ==> len(a.Matrix[k]) == let) && (forall k int :: 0 <= k && k < len(rSeq) ==> lidx(alpha, rSeq[k].L) >= 0) && (forall k int :: 0 <= k && k < len(qSeq) ==> lidx(alpha, qSeq[k].L) >= 0) && r == len(rSeq) + 1 && c == len(qSeq) + 1 && len(table) == r * c && fresh(table)
 //@   loop 8 invariant 1 <= y && y <= r && j == c - 1 && 0 <= i && i < r && layer == 0 && ref(index) == idxRef(alpha) && let == len(a.Matrix) && let >= alphaLen(alpha) && len(la) == let * let && index != nil && (forall b int :: 0 <= b && b < 256 ==> index[b] == lidx(alpha, b)) && (forall k int :: 0 <= k && k < len(a.Matrix) ==> len(a.Matrix[k]) == let) && (forall k int :: 0 <= k && k < len(rSeq) ==> lidx(alpha, rSeq[k].L) >= 0) && (forall k int :: 0 <= k && k < len(qSeq) ==> lidx(alpha, qSeq[k].L) >= 0) && r == len(rSeq) + 1 && c == len(qSeq) + 1 && len(table) == r * c && fresh(table)
 //@   loop 8 invariant [aln] (arr(aln) == 0 && cap(aln) == 0) || (fresh(aln) && allocated(aln))
-//@   loop 8 invariant [pairs] forall k int :: 0 <= k && k < len(aln) ==> wfPair(aln[k])
+//@   loop 8 invariant [pairs] forall k int :: 0 <= k && k < len(aln) ==> wfPair(aln[k], len(rSeq), len(qSeq))
 //@   loop 9 invariant 0 <= i && i < r && 0 <= j && j < c && 0 <= layer && layer <= 2 && ref(index) == idxRef(alpha) && let == len(a.Matrix) && let >= alphaLen(alpha) && len(la) == let * let && index != nil && (forall b int :: 0 <= b && b < 256 ==> index[b] == lidx(alpha, b)) && (forall k int :: 0 <= k && k < len(a.Matrix) ==> len(a.Matrix[k]) == let) && (forall k int :: 0 <= k && k < len(rSeq) ==> lidx(alpha, rSeq[k].L) >= 0) && (forall k int :: 0 <= k && k < len(qSeq) ==> lidx(alpha, qSeq[k].L) >= 0) && r == len(rSeq) + 1 && c == len(qSeq) + 1 && len(table) == r * c && fresh(table)
-//@   loop 9 invariant [shape] i <= maxI && j <= maxJ && (last == 0 ==> maxI - i == maxJ - j) && (last == 1 ==> maxJ == j) && (last == 2 ==> maxI == i) && 0 <= last && last <= 2 && (i == r - 1 && j == c - 1 ==> maxI == i && maxJ == j) && maxI < r && maxJ < c
+//@   loop 9 invariant [shape] 0 <= i && 0 <= j && i <= maxI && j <= maxJ && (last == 0 ==> maxI - i == maxJ - j) && (last == 1 ==> maxJ == j) && (last == 2 ==> maxI == i) && 0 <= last && last <= 2 && (i == r - 1 && j == c - 1 ==> maxI == i && maxJ == j) && maxI < r && maxJ < c
 //@   loop 9 invariant [aln] (arr(aln) == 0 && cap(aln) == 0) || (fresh(aln) && allocated(aln))
-//@   loop 9 invariant [pairs] forall k int :: 0 <= k && k < len(aln) ==> wfPair(aln[k])
+//@   loop 9 invariant [pairs] forall k int :: 0 <= k && k < len(aln) ==> wfPair(aln[k], len(rSeq), len(qSeq))
 //@   loop 9 writes fresh
 //@   loop 10 invariant 0 <= i && j == len(aln) - 1 - i && ref(index) == idxRef(alpha) && let == len(a.Matrix) && let >= alphaLen(alpha) && len(la) == let * let && index != nil && (forall b int :: 0 <= b && b < 256 ==> index[b] == lidx(alpha, b)) && (forall k int :: 0 <= k && k < len(a.Matrix) ==> len(a.Matrix[k]) == let) && (forall k int :: 0 <= k && k < len(rSeq) ==> lidx(alpha, rSeq[k].L) >= 0) && (forall k int :: 0 <= k && k < len(qSeq) ==> lidx(alpha, qSeq[k].L) >= 0)
 //@   loop 10 invariant [aln] (arr(aln) == 0 && cap(aln) == 0) || (fresh(aln) && allocated(aln))
-//@   loop 10 invariant [pairs] forall k int :: 0 <= k && k < len(aln) ==> wfPair(aln[k])
+//@   loop 10 invariant [pairs] forall k int :: 0 <= k && k < len(aln) ==> wfPair(aln[k], len(rSeq), len(qSeq))
 //@   loop 10 writes fresh
